@@ -101,14 +101,16 @@ impl From<Error> for io::Error {
     /// }
     /// ```
     fn from(l: Error) -> Self {
-        if let ErrorImpl::Io(err) = *l.0 {
-            err
-        } else {
-            match l.classify() {
-                Category::Io => unreachable!(),
-                Category::Syntax | Category::Data => io::Error::new(io::ErrorKind::InvalidData, l),
-                Category::Eof => io::Error::new(io::ErrorKind::UnexpectedEof, l),
-            }
+        match l.classify() {
+            Category::Io => match *l.0 {
+                ErrorImpl::Io(err) => err,
+                // A read failure reported by the parser; hand out the
+                // underlying IO error.
+                ErrorImpl::Parse(err) => err.into(),
+                ErrorImpl::Message(_, _) => unreachable!(),
+            },
+            Category::Syntax | Category::Data => io::Error::new(io::ErrorKind::InvalidData, l),
+            Category::Eof => io::Error::new(io::ErrorKind::UnexpectedEof, l),
         }
     }
 }
